@@ -62,6 +62,7 @@ type contract struct {
 	Pkg       string
 	Interface bool
 	External  bool // assumed, not verified
+	HeapWF    bool // include the heap well-formedness axioms in this function's queries
 	Names     []string // optional parameter names (receiver first)
 	Clauses   []*clause
 	Safety    []string // property ids to which nopanic obligations are attributed
@@ -89,7 +90,7 @@ type contractDB struct {
 	Files     []string
 }
 
-var clauseKw = regexp.MustCompile(`^(reveal|scope|invariant|ghost|spec|macro|lemma|contract|external|requires|ensures|emits|callsite|decreases|loop|safety|props|inline|pure|modifies|noreturn|fuel|unreachable)\b`)
+var clauseKw = regexp.MustCompile(`^(heapwf|reveal|scope|invariant|ghost|spec|macro|lemma|contract|external|requires|ensures|emits|callsite|decreases|loop|safety|props|inline|pure|modifies|noreturn|fuel|unreachable)\b`)
 
 func newContractDB() *contractDB {
 	return &contractDB{Specs: map[string]*specDef{}, Contracts: map[string]*contract{}, Ghosts: map[string]string{}, Scopes: map[string][]string{}, Invariants: map[string][]*clause{}, RevealPost: map[string]bool{}}
@@ -260,8 +261,13 @@ func (db *contractDB) loadContractFile(path, pkgPath string) error {
 			c.Ref = ref
 			if prev, dup := db.Contracts[ref]; dup {
 				// further clauses for a function that already has a contract block are merged into it
-				if prev.Interface != c.Interface || prev.External != c.External {
+				if prev.Interface != c.Interface {
 					return fail("conflicting contract kinds for %s", ref)
+				}
+				if prev.External != c.External {
+					// a module function described as `external` by a client package (what that client assumes of it)
+					// and under `contract` in its own package: one contract, verified like any other
+					prev.External = false
 				}
 				if len(prev.Names) == 0 {
 					prev.Names = c.Names
@@ -361,6 +367,11 @@ func (db *contractDB) loadContractFile(path, pkgPath string) error {
 				cur.Modifies = append(cur.Modifies, splitList(rest)...)
 				continue
 			case "fuel":
+				continue
+			case "heapwf":
+				// the function's proof needs the heap well-formedness axioms (values stored in allocated cells were
+				// allocated earlier); they are left out elsewhere because they slow every query down
+				cur.HeapWF = true
 				continue
 			}
 			if cl.Kind == "decreases" || cl.Kind == "loopdec" {
